@@ -11,6 +11,8 @@ var verifC02Pool = []string{
 	"/a", "/a.b",
 	// custom regex on a variable whose name is also a global variable
 	`/p/{num:[0-9]{2}}`, `/{any:\d+}`, `/a/{all:[a-z]+}`,
+	// dynamic patterns without any variable (optional part only)
+	"/ab[/x]", "/a[.html]", "/a/b[/c[/d]]",
 }
 
 // verifReconstruct rebuilds the path from the pattern and the reported
@@ -164,5 +166,39 @@ func verifHarness_C02_params() {
 		}
 		verifAssert(same, "repeated request reports the same parameter values")
 		verifCover("C02 repeat on caching router")
+	}
+}
+
+
+// Two routes with the same literal text and variable names but different
+// variable regexes, for different methods: each route's values must satisfy
+// its own regexes.
+var verifC02Pairs = [][2]string{
+	{`/a/{v:\d+}`, `/a/{v:[a-z]+}`}, {`/a/{v:[a-z]+}`, `/a/{v:\d+}`}, {"/a/{v}", `/a/{v:\d+}`}, {`/a/{v:\d+}`, "/a/{v}"},
+	{`/{v:\d+}/{w}`, `/{v}/{w:[a-z]+}`}, {"/{v}", `/{v:[a-z]+}`}, {`/a/{v:\d+}[/{w}]`, `/a/{v:[a-z]+}[/{w}]`}, {"/{num}", `/{num:[a-z]+}`},
+}
+
+func verifHarness_C02_twoRoutes() {
+	pair := verifC02Pairs[verifCfg()%len(verifC02Pairs)]
+	r := New()
+	first := r.GET(pair[0], verifNop)
+	second := r.POST(pair[1], verifNop)
+	p := verifNormalPath("p", verifParam("L"))
+	for k, m := range []string{"GET", "POST"} {
+		pat := pair[k]
+		want := first
+		if k == 1 {
+			want = second
+		}
+		got, ps, _ := r.QuickMatch(m, p)
+		if got == nil {
+			verifAssert(verifNot(verifSpecMatches(pat, p)), "no route only if the method's own pattern does not match")
+			continue
+		}
+		verifAssert(got == want, "the route registered for the method is selected")
+		verifAssert(verifParamsOK(pat, p, ps), "the values satisfy the selected route's own regexes and substitute back to the path")
+		if k == 1 {
+			verifCover("C02 second route matched")
+		}
 	}
 }
